@@ -106,18 +106,23 @@ RELATION = {"rt": "XYZ round trip (full and partial), relative to the XYZ vector
 
 
 def margins(notes):
-    """smallest number of bits of agreement per component type and relation, over all validation chunks"""
-    mn = {}
+    """smallest number of bits of agreement per component type and relation, and the number of events per kind, over all
+    validation chunks (book-keeping printed by TraceCam16; informational)"""
+    mn, cnt = {}, {}
     for n in notes:
         p = [x.strip().strip('"') for x in n.split(",")]
         if p[0] != "min":
             continue
         t, k, v = p[1], p[2], int(p[3])
-        if v >= 200:
-            continue      # exact agreement only (or never measured)
-        key = "%s %s" % (t, RELATION.get(k, k))
-        mn[key] = min(mn.get(key, 999), v)
-    return {k: {"min_bits_of_agreement": v, "largest_deviation": float("%.2g" % 2.0 ** -v)} for k, v in sorted(mn.items())}
+        if k.startswith("n."):
+            cnt["%s %s" % (t, k[2:])] = cnt.get("%s %s" % (t, k[2:]), 0) + v
+        elif v < 999:
+            key = "%s %s" % (t, RELATION.get(k, k))
+            mn[key] = min(mn.get(key, 999), v)
+    out = {}
+    for k, v in sorted(mn.items()):
+        out[k] = {"min_bits_of_agreement": v, "largest_deviation": float("%.2g" % 2.0 ** -v)} if v < 200 else "bit-identical in every event"
+    return out, dict(sorted(cnt.items()))
 
 
 def run(ctx):
@@ -149,6 +154,7 @@ def run(ctx):
     ctx.cov["distinct_nontrivial"] += count_distinct(
         dealt, lambda e: json.dumps([e["ev"], e["t"], e.get("params"), e.get("pk"), e.get("x"), e.get("x1"), e.get("x2"), e.get("jmh")]),
         lambda e: not e.get("panic"))
+    mg, cnt = margins(res.notes)
     for (line, ev, info, _) in res.rejected:
         why = info.strip().strip('"')
         report(ctx, coords_of(ev, why), describe(ev, why), {"bin": "cam16", "cmd": command_of(ev), "event": ev, "trace_line": line,
@@ -168,7 +174,7 @@ def run(ctx):
                            "the harness' flag w=1 (the colour converted is the adopted white of the conditions)",
                            "domain of spec/Cam16.tla!InDomain: non-negative CAT16 cone responses or one negative response of at most "
                            "1/16 of the smaller of the other two; other inputs are recorded but not judged (CAM16 undefined for A <= 0)"],
-                  extra={"margins": margins(res.notes), "lattice_cases_emitted": len(cases), "lattice_cases_executed": len(rows)})
+                  extra={"margins": mg, "events_judged": cnt, "lattice_cases_emitted": len(cases), "lattice_cases_executed": len(rows)})
 
 
 def replay(ctx, path):
